@@ -133,18 +133,24 @@ def build(spec: tuple, memo: dict[int, Any]) -> Any:
     raise ValueError(t)
 
 
-def _build_obj(o: dict, memo: dict[int, Any]) -> Any:
-    oid = o["id"]
-    p = {"str": o["str"], "id": oid}
-    ns: dict[str, Any] = {}
-    kind = o["kind"]
+_CLASSES: dict[tuple, type] = {}
 
+
+def _instance_class(kind: str, is_async: bool, has_liq: bool, has_html: bool, has_int: bool,
+                    length: int | None, members: tuple, is_callable: bool) -> type:
+    """One class per *shape* (reused across runs: creating a class per object
+    makes every isinstance-against-an-ABC check walk an ever longer list of
+    subclasses).  All per-object data lives in the instance's hidden store."""
+    key = (kind, is_async, has_liq, has_html, has_int, length, members, is_callable)
+    if key in _CLASSES:
+        return _CLASSES[key]
+    ns: dict[str, Any] = {}
     if kind == "mapping":
         def __getitem__(self, k):  # type: ignore[no-untyped-def]
-            LOG.getitem.append((oid, k))
-            d = _oget(self, "_c05")["items"]
-            if isinstance(k, str) and k in d:
-                return d[k]
+            p = _oget(self, "_c05")
+            LOG.getitem.append((p["id"], k))
+            if isinstance(k, str) and k in p["items"]:
+                return p["items"][k]
             raise KeyError(k)
 
         def __iter__(self):  # type: ignore[no-untyped-def]
@@ -155,54 +161,56 @@ def _build_obj(o: dict, memo: dict[int, Any]) -> Any:
         ns.update(__getitem__=__getitem__, __iter__=__iter__, __len__=__len__)
     elif kind == "sequence":
         def __getitem__(self, k):  # type: ignore[no-untyped-def]
-            LOG.getitem.append((oid, k))
-            return _oget(self, "_c05")["seq"][k]
+            p = _oget(self, "_c05")
+            LOG.getitem.append((p["id"], k))
+            return p["seq"][k]
 
         def __len__(self):  # type: ignore[no-untyped-def]
             return len(_oget(self, "_c05")["seq"])
         ns.update(__getitem__=__getitem__, __len__=__len__)
-    elif o.get("len") is not None:
-        n = o["len"]
-        ns["__len__"] = lambda self: n
-
-    if o.get("async"):
+    elif length is not None:
+        ns["__len__"] = lambda self: length
+    if is_async:
         async def __getitem_async__(self, k):  # type: ignore[no-untyped-def]
-            LOG.getitem.append((oid, k))
-            d = _oget(self, "_c05")["aitems"]
-            if isinstance(k, str) and k in d:
-                return d[k]
+            p = _oget(self, "_c05")
+            LOG.getitem.append((p["id"], k))
+            if isinstance(k, str) and k in p["aitems"]:
+                return p["aitems"][k]
             raise KeyError(k)
         ns["__getitem_async__"] = __getitem_async__
-
-    if o.get("liq") is not None:
-        lv = build(o["liq"], memo)
-        ns["__liquid__"] = lambda self: lv
-    if o.get("html") is not None:
-        hv = o["html"]
-        ns["__html__"] = lambda self: hv
-    if o.get("int") is not None:
-        iv = o["int"]
-        ns["__int__"] = lambda self: iv
-
-    inst_attrs: list[tuple[str, Any]] = []
-    for name, a in o["attrs"]:
-        if a[0] == "val":
-            inst_attrs.append((name, a[1]))
-        elif a[0] == "prop":
-            def getter(self, _spec=a[1], _n=name):  # type: ignore[no-untyped-def]
+    if has_liq:
+        ns["__liquid__"] = lambda self: _oget(self, "_c05")["liq"]
+    if has_html:
+        ns["__html__"] = lambda self: _oget(self, "_c05")["html"]
+    if has_int:
+        ns["__int__"] = lambda self: _oget(self, "_c05")["int"]
+    for name, tag in members:
+        if tag == "prop":
+            def getter(self, _n=name):  # type: ignore[no-untyped-def]
                 LOG.calls.append("property:" + _n)
-                return build(_spec, {})
+                return _oget(self, "_c05")["props"][_n]
             ns[name] = property(getter)
-        elif a[0] == "call":
-            def meth(self, *args, _ret=a[1], _n=name, **kw):  # type: ignore[no-untyped-def]
+        elif tag == "call":
+            def meth(self, *args, _n=name, **kw):  # type: ignore[no-untyped-def]
                 LOG.calls.append("method:" + _n)
-                return _ret
+                return _oget(self, "_c05")["calls"][_n]
             ns[name] = meth
         else:
             ns[name] = object()
-
+    if is_callable:
+        def __call__(self, *args, **kw):  # type: ignore[no-untyped-def]
+            LOG.calls.append("__call__")
+            return SENT
+        ns["__call__"] = __call__
     bases: tuple[type, ...] = {"plain": (Base,), "mapping": (Base, abc.Mapping),
                                "sequence": (Base, abc.Sequence)}[kind]
+    cls = type("D%d" % len(_CLASSES), bases, ns)
+    _CLASSES[key] = cls
+    return cls
+
+
+def _build_obj(o: dict, memo: dict[int, Any]) -> Any:
+    oid = o["id"]
     shape = o.get("shape", "inst")
     if shape == "module":
         m = LogModule(o["modname"])
@@ -216,26 +224,42 @@ def _build_obj(o: dict, memo: dict[int, Any]) -> Any:
                 types.ModuleType.__setattr__(m, name, fn)
         return m
     if shape == "class":
-        ns2 = dict(ns)
-        for name, v in inst_attrs:
-            ns2[name] = build(v, memo)
-        ns2["_cstr"] = o["str"]
+        ns2: dict[str, Any] = {"_cstr": o["str"]}
+        for name, a in o["attrs"]:
+            if a[0] == "val":
+                ns2[name] = build(a[1], memo)
+            elif a[0] == "prop":
+                def getter(self, _spec=a[1], _n=name):  # type: ignore[no-untyped-def]
+                    LOG.calls.append("property:" + _n)
+                    return build(_spec, {})
+                ns2[name] = property(getter)
+            elif a[0] == "call":
+                def meth(self, *args, _ret=a[1], _n=name, **kw):  # type: ignore[no-untyped-def]
+                    LOG.calls.append("method:" + _n)
+                    return _ret
+                ns2[name] = meth
+            else:
+                ns2[name] = object()
         if o["hg"]:
             ns2["__getitem__"] = lambda self, k: SENT
         return LogMeta("K%d" % oid, (object,), ns2)
-    cls = type("D%d" % oid, bases, ns)
-    if shape == "callable":
-        def __call__(self, *args, **kw):  # type: ignore[no-untyped-def]
-            LOG.calls.append("__call__")
-            return SENT
-        cls.__call__ = __call__  # type: ignore[attr-defined]
+    members = tuple((name, a[0]) for name, a in o["attrs"] if a[0] != "val")
+    cls = _instance_class(o["kind"], bool(o.get("async")), o.get("liq") is not None,
+                          o.get("html") is not None, o.get("int") is not None, o.get("len"),
+                          members, shape == "callable")
     obj = cls.__new__(cls)
+    p: dict[str, Any] = {"str": o["str"], "id": oid, "html": o.get("html"), "int": o.get("int")}
     object.__setattr__(obj, "_c05", p)
+    memo[oid] = obj
+    p["liq"] = build(o["liq"], memo) if o.get("liq") is not None else None
     p["items"] = {k: build(v, memo) for k, v in o.get("items", [])}
     p["aitems"] = {k: build(v, memo) for k, v in o.get("aitems", [])}
     p["seq"] = [build(v, memo) for v in o.get("seq", [])]
-    for name, v in inst_attrs:
-        object.__setattr__(obj, name, build(v, memo))
+    p["props"] = {name: build(a[1], memo) for name, a in o["attrs"] if a[0] == "prop"}
+    p["calls"] = {name: a[1] for name, a in o["attrs"] if a[0] == "call"}
+    for name, a in o["attrs"]:
+        if a[0] == "val":
+            object.__setattr__(obj, name, build(a[1], memo))
     return obj
 
 
